@@ -49,6 +49,22 @@ def judgeFault (fields : List String) : String :=
       if code1 ≠ 200 ∧ code2 = 200 ∧ n2 = size ∧ xs2 = "hitForPass".toList ∧ contacts = 2 then s!"ok short-{size} 1{trip}"
       else s!"DIFF fault short model=(err,200,{size},hitForPass,2) impl=({code1},{n1},{code2},{n2},{str xs2},{contacts}){trip}"
     | _, _, _, _, _, _, _ => "BADLINE fault short"
+  | ["bigtext", "=>", c1, ms1, xs1, c2, ms2, xs2, contacts] =>
+    match c1.toInt?, ms1.toNat?, unhex xs1, c2.toInt?, ms2.toNat?, unhex xs2, contacts.toNat? with
+    | some c1, some ms1, some xs1, some c2, some ms2, some xs2, some contacts =>
+      let stuck := c1 = -2 ∨ c2 = -2 ∨ ms1 ≥ 5000 ∨ ms2 ≥ 5000
+      let trip := (if stuck then " TRIP blocked" else "") ++ (if !stuck ∧ contacts ≠ 1 then " TRIP upstream_contacts_ne_one" else "")
+      if c1 = 200 ∧ c2 = 200 ∧ xs1 = "fetching".toList ∧ xs2 = "hit".toList ∧ contacts = 1 then s!"ok bigtext 1{trip}"
+      else s!"DIFF fault bigtext model=(200,fetching,200,hit,1) impl=({c1},{str xs1},{c2},{str xs2},{contacts}){trip}"
+    | _, _, _, _, _, _, _ => "BADLINE fault bigtext"
+  | ["bighdr", "=>", c1, n1] =>
+    -- however large the origin's header block is, its answer is relayed
+    if c1 = "200" ∧ n1 = "16" then "ok bighdr 1" else s!"DIFF fault bighdr model=(200,16) impl=({c1},{n1}) TRIP status_or_header_changed"
+  | ["concurrent", loc, "=>", mx] =>
+    -- three passed requests issued together are at the origin together
+    match unhex loc with
+    | some loc => if mx = "3" then s!"ok concurrent-{str loc} 1" else s!"ok concurrent-{str loc} 1 TRIP queued_during_hfp"
+    | none => "BADLINE fault concurrent"
   | ["nobody", kind, _timeout, "=>", c1, xs1, c2, xs2, contacts] =>
     match unhex kind, c1.toInt?, unhex xs1, c2.toInt?, unhex xs2, contacts.toNat? with
     | some kind, some c1, some xs1, some c2, some xs2, some contacts =>
